@@ -264,6 +264,8 @@ def shards(tier, seed):
     parts = 12
     specs = [{"mode": "enum", "part": i, "parts": parts} for i in range(parts)]
     specs.append({"mode": "compose"})
+    for i in range(4):
+        specs.append({"mode": "race", "part": i, "parts": 4})
     n = 250 if tier == "quick" else 4000
     for i in range(6):
         specs.append({"mode": "random", "seed": seed * 1000 + i, "n": n})
@@ -305,7 +307,41 @@ def case_strategy():
     return cases()
 
 
+def race_cases():
+    """Two-link chains whose input completes on one thread while another thread cancels the OUTPUT at the same instant
+    (the links hand the result on / the cancel request back in opposite directions)."""
+    FM = [{"kind": "flat_map", "fn": [["futarg", "done"]], "err": None}, {"kind": "flat_map", "fn": None, "err": None},
+          {"kind": "map", "fn": [["app", "m"]], "err": None}]
+    out = []
+    for form in ("f", "exec"):
+        for l1 in FM:
+            for l2 in FM:
+                for inp in (["value"], ["error", "E1"]):
+                    out.append({"form": form, "layers": [l1, l2], "input": inp, "timing": "other-thread", "inner": {}, "cancel_at": 0.5, "tape": []})
+    return out
+
+
+def run_race(spec, ctx):
+    k = 0
+    for idx, base in enumerate(race_cases()):
+        if idx % spec["parts"] != spec["part"]:
+            continue
+        viols, info = evaluate(base)
+        account(ctx, base, viols, info, ["race"])
+        n = info["steps"]
+        for i in range(n + 1):
+            for pick in (0, 1):
+                case = dict(base, tape=[[i, pick]])
+                viols, info = evaluate(case)
+                account(ctx, case, viols, info, ["race"])
+                k += 1
+    ctx.exhaustive.append({"domain": "completion || cancel of the output of two-link map/flat_map chains, every single pre-emption (part %d/%d)" % (spec["part"], spec["parts"]),
+                           "size": k, "complete": True})
+
+
 def run_shard(spec, ctx):
+    if spec["mode"] == "race":
+        return run_race(spec, ctx)
     if spec["mode"] == "enum":
         k = 0
         for case in enum_cases(spec["part"], spec["parts"]):
